@@ -22,8 +22,9 @@ def _converter(mm_tree, lang_tree):
     """(param name, body expr | list of statements) of the STRING entry of _default_obj_processors"""
     init = find(mm_tree, "TextXMetaModel.__init__"); procs = None
     for n in ast.walk(init):
-        if isinstance(n, ast.Assign) and ast.unparse(n.targets[0]) == "self._default_obj_processors" and isinstance(n.value, ast.Dict):
-            procs = {k.value: v for k, v in zip(n.value.keys, n.value.values) if isinstance(k, ast.Constant)}
+        if isinstance(n, ast.Assign) and ast.unparse(n.targets[0]) == "self._default_obj_processors" and dict_literal_of(n.value, mm_tree) is not None:
+            d_ = dict_literal_of(n.value, mm_tree)
+            procs = {k.value: v for k, v in zip(d_.keys, d_.values) if isinstance(k, ast.Constant)}
     if procs is None or "STRING" not in procs: raise AnalysisError("STRING entry of _default_obj_processors not found")
     v = procs["STRING"]
     if isinstance(v, ast.Lambda): return v.args.args[0].arg, v.body, ast.unparse(v)
